@@ -245,7 +245,10 @@ def _has(kinds):
 P_DEFAULT = [("d", {})]
 P_CLEAN = [("c", {"p_cleanup": 0.7, "p_err": 0.55, "p_func": 0.7, "min_structs": 4, "max_structs": 9, "units": [1, 2]})]
 
-P_NAMES = [("n", {"adversarial": True, "p_err": 0.55, "p_cleanup": 0.6, "p_func": 0.65, "units": [1, 2]})]
+P_NAMES = [("n", {"adversarial": True, "p_err": 0.55, "p_cleanup": 0.6, "p_func": 0.65, "units": [1, 2]}),
+           # two packages with one name declaring same-named functions, most providers in the libraries and with cleanups
+           ("s", {"adversarial": True, "p_err": 0.5, "p_cleanup": 0.85, "p_func": 0.85, "units": [1, 2], "p_samepkg": 1.0, "p_lib_structs": 0.9,
+                  "min_structs": 5, "max_structs": 8})]
 
 P_LONG = [("l", {"min_structs": 13, "max_structs": 16, "p_func": 0.95, "p_cleanup": 0.9, "p_err": 0.5, "units": [1], "p_twin": 0.0})]
 
